@@ -412,3 +412,14 @@ Proof.
     replace (Nat.eqb p q) with false in H by (symmetry; apply Nat.eqb_neq; lia).
     apply (IH q a b Hq H).
 Qed.
+
+Theorem ipv6_finditer_spans_are_delimited (s : list chr) : forall fuel i a b,
+  In (a, b) (finditer s fuel IPV6_RX i) ->
+  (a = 0 \/ (1 <= a /\ exists x, nth_error s (a - 1) = Some x /\ in_cset x cs9 = true)) /\
+  (eol s b = true \/ exists x, nth_error s b = Some x /\ in_cset x cs9 = true).
+Proof.
+  induction fuel as [|fuel IH]; intros i a b H; cbn [finditer] in H; [destruct H|].
+  destruct (search_from s (Rx.slen s - i) IPV6_RX i) as [[[p q] cq]|] eqn:S; [|destruct H].
+  pose proof (search_from_ge s _ _ _ _ _ _ S) as [_ Mp]. pose proof (match_at_in s _ _ _ _ Mp) as Hin.
+  destruct H as [[= <- <-]|H]; [exact (ipv6_match_is_delimited s p [] q cq Hin)|]. exact (IH _ a b H).
+Qed.
